@@ -605,6 +605,33 @@ fn conv_grid(max_log: u32, min_log: u32) -> Vec<ConvCase> {
             }
         }
     }
+    // Probes between the breakpoints: the capacity of a packed slot is monotone in the modulus size, so a
+    // breakpoint of the dispatch table that has moved up is visible at the moduli just below its new place,
+    // which the list above (the documented breakpoints) does not contain.  Every fourth size from 100 bits on,
+    // at the transform sizes where the packing classes differ, with the maximal-magnitude family (all
+    // coefficients n-1, both operands of full length: every slot receives `size` products of maximal size).
+    for logsize in min_log.max(12)..=max_log {
+        let size = 1usize << logsize;
+        let step = if logsize >= 17 { 16 } else { 4 };
+        for bits in (100..=500u32).step_by(step) {
+            if bits_list.contains(&bits) {
+                continue;
+            }
+            let seed = (logsize as u64) << 32 | bits as u64 | 1 << 48;
+            let n = mk_modulus(bits, (bits % 3) as u8, &[0x9E3779B97F4A7C15 ^ seed, 0xD1B54A32D192ED03, seed], 1 + 2 * (bits as u64 % 5));
+            out.push(ConvCase {
+                n,
+                variant: "ss".to_string(),
+                logsize,
+                mzp_extra: 0,
+                p: Coefs::simple("nm1", size, seed),
+                q: Coefs::simple("nm1", size, seed),
+                offset: 0,
+                reslen: size,
+                prefill: false,
+            });
+        }
+    }
     out
 }
 
